@@ -193,7 +193,8 @@ func observe(s string) (o obs) {
 	if p, msg := common.Safely(func() {
 		sc, err := bscript.NewP2PKHFromAddress(s)
 		if err == nil && sc != nil {
-			o.scriptOK, o.script = true, []byte(*sc)
+			o.scriptOK, o.script = true, append([]byte{}, (*sc)...)
+			retain("NewP2PKHFromAddress", o.script, sc)
 		}
 	}); p {
 		violate("NewP2PKHFromAddress/panic", msg, q)
@@ -336,6 +337,7 @@ func hashCase(h []byte, mainnet bool, toCoq bool) string {
 			!bytes.Equal(*tx.Outputs[0].LockingScript, want) || !bytes.Equal(*tx.Outputs[1].LockingScript, want) {
 			violate("NewP2PKHFrom*/constructors-disagree", fmt.Sprintf("%x %x %x", *s1, *s2, *s3), in)
 		} else {
+			retain("hash constructors", want, s1, s2, s3, tx.Outputs[0].LockingScript, tx.Outputs[1].LockingScript)
 			sc := bscript.Script(want)
 			got, err := sc.PublicKeyHash()
 			if err != nil || !bytes.Equal(got, h) {
@@ -397,6 +399,8 @@ func keyCase(seed []byte, mainnet bool) {
 	} else if !bytes.Equal(*s1, want) || !bytes.Equal(*s2, want) || !bytes.Equal(*s3, want) || !bytes.Equal(*s4, want) ||
 		!bytes.Equal(*tx.Outputs[0].LockingScript, want) || !bytes.Equal(*tx.Outputs[1].LockingScript, want) {
 		violate("NewP2PKHFrom*/constructors-disagree", fmt.Sprintf("%x %x %x %x", *s1, *s2, *s3, *s4), in)
+	} else {
+		retain("key constructors", want, s1, s2, s3, s4, tx.Outputs[0].LockingScript, tx.Outputs[1].LockingScript)
 	}
 	coq := fmt.Sprintf("CAddrKey %s %s %s %s", common.CoqBytes(k), common.CoqBool(mainnet), coqText(a.AddressString), coqText(a.PublicKeyHash))
 	in["address"] = a.AddressString
@@ -404,6 +408,35 @@ func keyCase(seed []byte, mainnet bool) {
 	if mainnet {
 		scriptKeyCase(k)
 	}
+}
+
+// scripts handed out earlier keep paying whom they paid: every script a constructor returned is kept and
+// compared again after all later calls
+type kept struct {
+	s    *bscript.Script
+	want []byte
+	how  string
+}
+
+var retained []kept
+
+func retain(how string, want []byte, ss ...*bscript.Script) {
+	for _, s := range ss {
+		if s != nil && len(retained) < 200000 {
+			retained = append(retained, kept{s, append([]byte{}, want...), how})
+		}
+	}
+}
+
+func checkRetained() {
+	bad := 0
+	for _, k := range retained {
+		if !bytes.Equal(*k.s, k.want) && bad < 5 {
+			bad++
+			violate("NewP2PKHFrom*/script-changed-after-later-calls", fmt.Sprintf("%s: built as %x, now %x", k.how, k.want, []byte(*k.s)), map[string]interface{}{"kind": "retained-script", "how": k.how})
+		}
+	}
+	c.Stats.Extra["retained_scripts_rechecked"] = len(retained)
 }
 
 func scriptKeyCase(k []byte) {
@@ -646,6 +679,12 @@ func main() {
 			bad := "0OIl -_\n\x00\xff+/"
 			stringCase("non-base58-character", a[:i]+string(bad[(i+bi)%len(bad)])+a[i+1:], true)
 		}
+		for i := 0; i < len(a); i++ { // non-ASCII characters whose code point or bytes resemble the original character
+			for k, t := range []string{string(rune(0x100 + int(a[i]))), string(rune(0x400 + int(a[i]))), string(rune(0x4e00 + int(a[i]))),
+				string([]byte{a[i] | 0x80}), string([]byte{0xc2, a[i] | 0x80}), string([]byte{a[i], 0xcc, 0x81})} {
+				stringCase("non-ascii-lookalike", a[:i]+t+a[i+1:], bi == 0 || th || (i+k)%5 == 0)
+			}
+		}
 		for _, t := range []string{" " + a, a + " ", a + "\n", "\t" + a, a + a, a[:len(a)/2], strings.ToUpper(a), strings.ToLower(a)} {
 			stringCase("whitespace-case-halves", t, true)
 		}
@@ -743,6 +782,7 @@ func main() {
 
 	c.Stats.Extra["violation_counts_by_site"] = perSite
 	c.Stats.Extra["derived_addresses"] = len(derived)
-	c.Stats.Rule = "go-bk base58: byte lists (0..3 leading zeros, length 0..40) and alphabet strings incl. invalid characters. Hashes: boundary (all-zero, all-ff, 1..3 leading zero bytes) + seeded random 20-byte hashes x 2 networks; keys: seeded secp256k1 keys x 2 networks (HASH160 recomputed in Gallina); key/hash byte strings of other lengths. Strings: 6 base addresses (mainnet, two leading '1's, both testnet prefixes, burn address) with EVERY single-character substitution (57 x length; model side: all for the first address, 3 per position for the others; thorough: all), all adjacent transpositions, all deletions, insertions at every position ('1' and a random character; all 58 at first/second/last position), a non-Base58 character at every position, whitespace/case variants, leading-'1' insertion/deletion; re-encoded payloads with altered checksum (bit flip, random, checksum without version, single SHA-256), wrong version bytes {05,c4,01,6e,70,80,ef,ff} with right checksum, payload lengths 24/26 and others with right checksum, long/short/empty strings, bitcoin-script texts. Every string goes through ValidateAddress, NewAddressFromString, NewP2PKHFromAddress, PayToAddress (a sample through ChangeToAddress). Scripts: canonical template, every truncation, byte substitutions at the template positions, PUSHDATA1/2/4 encodings, hostile lengths, random bytes through PublicKeyHash/IsP2PKH/Addresses. distinct = distinct input (string / bytes / hash+network); non-trivial = strings of at least 20 characters, 20-byte hashes, real keys, scripts longer than 2 bytes, non-empty codec inputs"
+	c.Stats.Rule = "go-bk base58: byte lists (0..3 leading zeros, length 0..40) and alphabet strings incl. invalid characters. Hashes: boundary (all-zero, all-ff, 1..3 leading zero bytes) + seeded random 20-byte hashes x 2 networks; keys: seeded secp256k1 keys x 2 networks (HASH160 recomputed in Gallina); key/hash byte strings of other lengths. Strings: 6 base addresses (mainnet, two leading '1's, both testnet prefixes, burn address) with EVERY single-character substitution (57 x length; model side: all for the first address, 3 per position for the others; thorough: all), all adjacent transpositions, all deletions, insertions at every position ('1' and a random character; all 58 at first/second/last position), a non-Base58 character at every position, six non-ASCII look-alikes at every position (code points U+0100/U+0400/U+4E00 + the character, the character with the top bit set, a combining accent), whitespace/case variants, leading-'1' insertion/deletion; re-encoded payloads with altered checksum (bit flip, random, checksum without version, single SHA-256), wrong version bytes {05,c4,01,6e,70,80,ef,ff} with right checksum, payload lengths 24/26 and others with right checksum, long/short/empty strings, bitcoin-script texts. Every string goes through ValidateAddress, NewAddressFromString, NewP2PKHFromAddress, PayToAddress (a sample through ChangeToAddress). Scripts: canonical template, every truncation, byte substitutions at the template positions, PUSHDATA1/2/4 encodings, hostile lengths, random bytes through PublicKeyHash/IsP2PKH/Addresses. distinct = distinct input (string / bytes / hash+network); non-trivial = strings of at least 20 characters, 20-byte hashes, real keys, scripts longer than 2 bytes, non-empty codec inputs"
+	checkRetained()
 	c.Finish()
 }
